@@ -626,7 +626,7 @@ func execRRSIG(f []string) vlib.Res {
 	case !accepted && foreign == "" && bad == "" && len(c.K) > 0 && !unknownWindow:
 		or = fail("rrsig/rejected-fully-signed-response", "impl=%s", impl)
 	}
-	return vlib.Res{Impl: impl, Oracle: or, Tags: "nt"}
+	return vlib.Res{Impl: impl, Oracle: or, Tags: "nt," + strings.ReplaceAll(kv(f)["T"], "+", ",")}
 }
 
 // ------------------------------------------------------------------ ValidateSigner
@@ -829,7 +829,7 @@ func execDS(f []string) vlib.Res {
 	case !unsup && err != nil && !anySupported && len(c.D) > 0:
 		or = fail("ds/unsupported-only-not-indicated", "impl=%s", impl)
 	}
-	return vlib.Res{Impl: impl, Oracle: or, Tags: "nt"}
+	return vlib.Res{Impl: impl, Oracle: or, Tags: "nt," + strings.ReplaceAll(kv(f)["T"], "+", ",")}
 }
 
 // ------------------------------------------------------------------ wildcard answers
